@@ -1499,6 +1499,26 @@ def crep_init(rep, ex: Explorer, cls=CR):
                 chk = v
         models = [ev for ev, Q in iter_events(p.events) if ev.kind == "solver.model"]
         n += 1
+        # CREP.system: the constraint system the impacts are a solution of is compiled from the base as it is now, in this call
+        news = [ev for ev, Q in iter_events(p.events) if ev.kind == "cinf.new"]
+        for ev, Q in iter_events(p.events):
+            if ev.kind != "attr.set" or ev.attr != "_csp":
+                continue
+            val = ev.value
+            if isinstance(val, Const) and val.value is None:
+                continue
+            o_ = p.state.heap.get(val.oid) if isinstance(val, Ref) else None
+            fresh = isinstance(o_, HList) and any(sg == ("sym", "BASECSP") for sg in o_.segs) and bool(news)
+            if fresh:
+                rep.ok("CREP.system", f"{site}:{ev.node.lineno}", "constraint system", "the constraint system is the one c-inference compiles from this base in this call")
+                break  # (what follows converts that system; its wiring into the optimiser is CHECK.three-way / CREP.rank)
+            lab = val.label if isinstance(val, Sym) else None
+            by_object = isinstance(lab, tuple) and lab[:1] == ("dictitem",) and len(lab) >= 3 and isinstance(lab[2], tuple) and lab[2][:1] == ("ref",)
+            if by_object:
+                rep.violation("CREP.system", f"{site}:{ev.node.lineno}", "constraint system remembered per base object", "the impacts solve the constraint system of the base as it is now; a system remembered under the base *object* does not follow a change of its conditionals",
+                              extracted=F.show_desc(lab)[:120], required="compiled from the current conditionals", function=site)
+                break
+            # (any other form - a converted copy, a local - is not judged here: only a system found under the base object is)
         if chk == "sat":
             rep.check(len(models) >= 1 and p.outcome[0] == "return", "CHECK.three-way", site, "sat", "a model is read after the check answered sat", extracted=f"{len(models)} read(s), {p.outcome[0]}", required="model read", function=site)
             # objectives: every η_key minimised
@@ -1857,6 +1877,96 @@ def pickled_state(rep, ex: Explorer):
             n += 1
             got = obj.attrs.get(name) if isinstance(obj, HObj) else None
             rep.check(got == want, "STATE.pickled", site2, f"attribute {name}", "restoring a state puts every entry of it back on the object", extracted=repr(got), required=repr(want), function=site2)
+    # --- a subclass that overrides either method changes what is pickled for its objects: decided by a round trip on a small
+    # concrete object of that class (state taken by the most derived __getstate__, put on a fresh object by the most derived
+    # __setstate__): every attribute comes back with the same content.  The partition holds a conditional that is not among
+    # `conditionals` (a fact conditional of the augmented base) beside those that are.
+    CONDC = "inference.conditional.Conditional"
+    for cls_ in (ZP, CR, CUS):
+        own = [m for m in ("__getstate__", "__setstate__") if cls_ in ex.prog.classes and m in ex.prog.classes[cls_].methods]
+        if not own:
+            continue
+        gq = ex.prog.lookup_method(cls_, "__getstate__")
+        sq = ex.prog.lookup_method(cls_, "__setstate__")
+        if gq is None or sq is None:
+            raise AnalysisError(f"{cls_}: overrides {own} but the other half of the pair cannot be found")
+        sitec = fn_label(ex.prog, f"{cls_}.{own[0]}")
+        rt = {}
+
+        def cond(I, name):
+            return I.alloc(HObj(CONDC, {"textRepresentation": Const(name), "index": Const(None), "weak": Const(False)}))
+
+        def mk(I):
+            c1, c2, cf = cond(I, "c1"), cond(I, "c2"), cond(I, "fact")
+            conds = I.alloc(HDict(entries={1: c1, 2: c2}))
+            part = I.alloc(HList([("one", I.alloc(HList([("one", c1)]))), ("one", I.alloc(HList([("one", c2), ("one", cf)])))]))
+            ranks = I.alloc(HDict(entries={"0": Const(None), "1": Const(2)}))
+            return {"ranks": ranks, "signature": I.alloc(HList([("one", Const("a"))])), "_metadata": I.alloc(HDict()), "_state": I.alloc(HDict()), "_impacts": I.alloc(HList([("one", Const(1)), ("one", Const(0))])),
+                    "conditionals": conds, "_z_partition": part, "ranking_system": Const("system-z"), "_optimizer": Const(None), "_csp": Const(None)}
+
+        def _py(state, v, self_oid, depth=0):
+            """a concrete abstract value as a Python structure (conditionals by their text; None when it is not concrete)"""
+            if isinstance(v, Ref) and depth < 6:
+                o = state.heap.get(v.oid)
+                if isinstance(o, HObj) and v.oid == self_oid:
+                    return {k: _py(state, x, self_oid, depth + 1) for k, x in o.attrs.items()}
+                if isinstance(o, HObj) and o.cls == CONDC and isinstance(o.attrs.get("textRepresentation"), Const):
+                    return ("condobj", o.attrs["textRepresentation"].value)
+                if isinstance(o, HDict) and not o.each and not o.sym:
+                    return {k: _py(state, x, self_oid, depth + 1) for k, x in o.entries.items()}
+                if isinstance(o, HList) and all(sg[0] == "one" for sg in o.segs):
+                    return [_py(state, sg[1], self_oid, depth + 1) for sg in o.segs]
+                return None
+            return v
+
+        def setup_g(I):
+            attrs = mk(I)
+            s_ = I.alloc(HObj(cls_, dict(attrs)))
+            rt["s"], rt["attrs"] = s_, attrs
+            return [s_], {}
+
+        gp = [p for p in ex.run(gq.qualname, setup_g, summaries=_summ(), key=f"rt-get-{cls_}")]
+        if len(gp) != 1 or gp[0].outcome[0] != "return":
+            raise AnalysisError(f"{sitec}: the state of a small concrete object is not taken on a single returning path ({len(gp)} paths)")
+        before = {k: _py(gp[0].state, v, -1) for k, v in rt["attrs"].items()}
+        st_content = _py(gp[0].state, gp[0].outcome[1], rt["s"].oid)
+        if not isinstance(st_content, dict):
+            raise AnalysisError(f"{sitec}: the state taken from a small concrete object is not a concrete mapping: {st_content!r}"[:200])
+
+        def setup_s(I):
+            memo = {}
+
+            def rebuild(c):
+                if isinstance(c, dict):
+                    return I.alloc(HDict(entries={k: rebuild(v) for k, v in c.items()}))
+                if isinstance(c, list):
+                    return I.alloc(HList([("one", rebuild(v)) for v in c]))
+                if isinstance(c, tuple) and c[:1] == ("condobj",):
+                    if c[1] not in memo:
+                        memo[c[1]] = cond(I, c[1])
+                    return memo[c[1]]
+                if c is None:
+                    raise AnalysisError(f"{sitec}: the state taken from a small concrete object holds something the analysis cannot rebuild")
+                return c
+
+            s_ = I.alloc(HObj(cls_, {}))
+            rt["s2"] = s_
+            return [s_, rebuild(st_content)], {}
+
+        sp = [p for p in ex.run(sq.qualname, setup_s, summaries=_summ(), key=f"rt-set-{cls_}")]
+        if len(sp) != 1:
+            raise AnalysisError(f"{sitec}: restoring the state of a small concrete object takes {len(sp)} paths")
+        if sp[0].outcome[0] != "return":
+            rep.violation("STATE.pickled", sitec, "round trip", "a state taken from an object can be put back", extracted=f"{sp[0].outcome[0]} {sp[0].outcome[1]!r}"[:100], required="return", function=sitec)
+            continue
+        obj = sp[0].state.heap.get(rt["s2"].oid)
+        for name, want in before.items():
+            if name in DETACHED:
+                continue
+            got = _py(sp[0].state, obj.attrs.get(name), -1) if isinstance(obj, HObj) and name in obj.attrs else "missing"
+            n += 1
+            rep.check(got == want, "STATE.pickled", sitec, f"round trip of {name}", "an object restored from its own pickled state has every attribute with the content it had (also a partition that holds conditionals which are not among `conditionals`: the fact conditionals)",
+                      extracted=str(got)[:160], required=str(want)[:160], function=sitec)
     rep.floor("pickled attributes compared", n, 8)
     return {"pickled_attrs": n}
 
